@@ -283,7 +283,7 @@ func checkPrio(prop string, sc *PrioSc, res *simrt.Result) Verdict {
 		checkPrioStop(&vd, v)
 	case "C17":
 		checkDynamic(&vd, v, nil)
-	case "C19", "C20":
+	case "C19":
 		seq, how := v.terminated()
 		checkGoroutines(&vd, res, seq, how, v.stopRet >= 0 || v.gracefulRet >= 0)
 	}
